@@ -38,6 +38,10 @@ PIECES = {
             "    def __hash__(self):\n        return 1\n    def __repr__(self):\n        return 'Flk(%d)' % self.n if self.n < 5 else '<Flk %d>' % self.n\n"),
     "NT": "from collections import namedtuple\nNT = namedtuple('NT', 'a,b')\n",
     "NTD": "from collections import namedtuple\nNTD = namedtuple('NTD', 'a,b', defaults=[9])\n",
+    # classes of the same kinds as DC / NT / AT with other field names (values of another class of the same adapter family)
+    "DCO": "from dataclasses import dataclass\n@dataclass\nclass DCO:\n    p: object\n    q: int = 0\n",
+    "NTO": "from collections import namedtuple\nNTO = namedtuple('NTO', 'p,q')\n",
+    "ATO": "import attrs\n@attrs.define\nclass ATO:\n    p: object\n    q: int = 5\n",
     "defaultdict": "from collections import defaultdict\n",
     "Opaque": (
         "class Opaque:\n    def __init__(self, n=1):\n        self.n = n\n"
